@@ -1493,4 +1493,237 @@ def _st_e2e(T, S, t, n, seed):
     T.check(neg, S.dec_vss_list(S.enc_vss_list(vss[:1])) is None and S.dec_vss_list(b"") is None
             and S.dec_vss_list(S.enc_vss_list(vss)[:-1]) is None, "dec vss: short")
 
-# %%SELFTEST4%%
+
+def _st_decode_rules(T, S):
+    """Which byte strings the decoders reject (RFC 9591 Deserialize* rules
+    as applied by crrl)."""
+    cat = "decode_rules/" + S.name
+    q, NS, NE = S.order, S.NS, S.NE
+    endian = "big" if S.big_endian else "little"
+    one = S.enc_scalar(1)
+    G = S.enc_point(S.G_mulgen(1))
+    P5 = S.enc_point(S.G_mulgen(5))
+    ident_enc = S.enc_point(S.G_identity())
+    T.check(cat, len(one) == NS and len(G) == NE and len(ident_enc) == NE, "lengths")
+
+    # scalars
+    T.check(cat, S.dec_scalar(S.enc_scalar(q - 1)) == q - 1, "q-1 accepted")
+    T.check(cat, S.dec_scalar(S.enc_scalar(0)) == 0, "0 accepted as scalar")
+    T.check(cat, S.dec_scalar(q.to_bytes(NS, endian)) is None, "q rejected")
+    T.check(cat, S.dec_scalar((q + 1).to_bytes(NS, endian)) is None, "q+1 rejected")
+    T.check(cat, S.dec_scalar(b"\xff" * NS) is None, "all-ones rejected")
+    T.check(cat, S.dec_scalar(one[:-1]) is None and S.dec_scalar(one + b"\x00") is None
+            and S.dec_scalar(b"") is None, "scalar length")
+    if S.name == "ed448":
+        T.check(cat, one[56] == 0 and S.dec_scalar(one[:56] + b"\x01") is None
+                and S.dec_scalar(one[:56] + b"\x80") is None, "ed448 57th byte must be 0")
+        T.check(cat, S.dec_scalar(one[:56]) is None, "ed448 56-byte scalar rejected")
+    if S.big_endian:
+        T.check(cat, one == bytes(31) + b"\x01", "big-endian scalars")
+    else:
+        T.check(cat, one == b"\x01" + bytes(NS - 1), "little-endian scalars")
+
+    # points
+    T.check(cat, S.dec_point(G) is not None and S.dec_point(P5) is not None, "valid points")
+    T.check(cat, S.dec_point(ident_enc) is None, "identity rejected")
+    T.check(cat, S.dec_point(G[:-1]) is None and S.dec_point(G + b"\x00") is None
+            and S.dec_point(b"") is None, "point length")
+    if S.name in ("p256", "secp256k1"):
+        C = S.grp.C
+        T.check(cat, ident_enc == bytes(33), "identity encodes as 33 zeros")
+        T.check(cat, S.dec_point(b"\x00") is None, "1-byte infinity rejected")
+        T.check(cat, S.dec_point(C.encode_uncompressed(C.G)) is None, "uncompressed rejected")
+        T.check(cat, S.dec_point(bytes([G[0] ^ 1]) + G[1:]) is not None, "other parity = -G")
+        T.check(cat, S.dec_point(b"\x04" + G[1:]) is None and S.dec_point(b"\x06" + G[1:]) is None,
+                "bad leading byte")
+        x = C.G[0]
+        T.check(cat, S.dec_point(b"\x02" + (x + C.p).to_bytes(33, "big")[1:]) is None
+                if x + C.p < 2**256 else True, "x + p rejected")
+        T.check(cat, S.dec_point(b"\x02" + C.p.to_bytes(32, "big")) is None, "x = p rejected")
+        xx = 1
+        while C.lift_x(xx, 0) is not None:
+            xx += 1
+        T.check(cat, S.dec_point(b"\x02" + xx.to_bytes(32, "big")) is None, "off-curve x rejected")
+    elif S.name in ("ed25519", "ed448"):
+        C = S.grp.C
+        low = C.low_order_points()
+        T.check(cat, all(S.dec_point(C.encode(Q)) is None for Q in low),
+                "all low-order points rejected")
+        mixed = [C.add(C.mul_base(3), Q) for Q in low[1:]]
+        T.check(cat, all(C.decode(C.encode(Q)) is not None for Q in mixed)
+                and all(S.dec_point(C.encode(Q)) is None for Q in mixed),
+                "valid curve points outside the prime-order subgroup rejected")
+        # non-canonical y (y + p) of a point with small y
+        yy = 2
+        while C.recover_x(yy, 0) is None or yy + C.p >= 1 << (8 * NE - 1):
+            yy += 1
+        enc_nc = (yy + C.p).to_bytes(NE, "little")
+        T.check(cat, S.dec_point(enc_nc) is None, "non-canonical y rejected")
+        # x = 0 with sign bit set (non-canonical neutral)
+        b = bytearray(C.encode(C.neutral))
+        b[-1] |= 0x80
+        T.check(cat, S.dec_point(bytes(b)) is None, "x=0 with sign bit rejected")
+        if S.name == "ed448":
+            b = bytearray(G)
+            b[56] |= 0x01
+            T.check(cat, S.dec_point(bytes(b)) is None, "ed448 spare bits of last byte")
+    else:
+        Rr = S.grp.R
+        T.check(cat, ident_enc == bytes(32), "ristretto identity = zeros")
+        T.check(cat, S.dec_point(b"\x01" + bytes(31)) is None, "negative s rejected")
+        T.check(cat, S.dec_point((Rr.p + 2).to_bytes(32, "little")) is None
+                and S.dec_point(b"\xff" * 32) is None, "non-canonical s rejected")
+        # all four coset representatives encode identically
+        P = S.G_mulgen(11)
+        T4 = [Q for Q in ED25519.low_order_points() if ED25519.is_neutral(ED25519.mul(4, Q))]
+        T.check(cat, len(T4) == 4 and all(S.enc_point(ED25519.add(P, Q)) == S.enc_point(P)
+                                          and S.G_eq(ED25519.add(P, Q), P) for Q in T4),
+                "coset representatives")
+        T.check(cat, sum(S.dec_point(bytes([i]) + bytes(31)) is not None for i in range(32)) < 32,
+                "some small encodings invalid")
+
+    # composite objects
+    T.check(cat, S.dec_group_sk(S.enc_scalar(0)) is None, "group sk 0")
+    T.check(cat, S.dec_group_sk(q.to_bytes(NS, endian)) is None, "group sk q")
+    T.check(cat, S.dec_group_sk(one) == 1 and S.dec_group_sk(one + b"\x00") is None, "group sk len")
+    T.check(cat, S.dec_group_pk(ident_enc) is None and S.dec_group_pk(G[1:]) is None, "group pk")
+    zero = S.enc_scalar(0)
+    good_share = one + S.enc_scalar(9) + P5
+    T.check(cat, S.dec_share(good_share) is not None, "share ok")
+    T.check(cat, S.dec_share(zero + S.enc_scalar(9) + P5) is None, "share ident 0")
+    T.check(cat, S.dec_share(one + zero + P5) is None, "share sk 0")
+    T.check(cat, S.dec_share(one + S.enc_scalar(9) + ident_enc) is None, "share identity pk")
+    T.check(cat, S.dec_share(q.to_bytes(NS, endian) + S.enc_scalar(9) + P5) is None, "share ident q")
+    T.check(cat, S.dec_share(good_share[:-1]) is None and S.dec_share(good_share + b"\x00") is None,
+            "share length")
+    d = S.dec_share(good_share)
+    T.check(cat, d is not None and S.G_eq(d["pk"], S.G_mulgen(9)), "share pk recomputed from sk")
+    T.check(cat, S.dec_signer_pk(one + P5) is not None and S.dec_signer_pk(zero + P5) is None
+            and S.dec_signer_pk(one + ident_enc) is None and S.dec_signer_pk(one + P5 + b"\x00") is None,
+            "signer pk")
+    T.check(cat, S.dec_nonce(one + zero + zero) == (1, 0, 0), "nonce with zero scalars accepted")
+    T.check(cat, S.dec_nonce(zero + one + one) is None
+            and S.dec_nonce(one + q.to_bytes(NS, endian) + one) is None
+            and S.dec_nonce(one + one + q.to_bytes(NS, endian)) is None
+            and S.dec_nonce(one + one) is None, "nonce rejects")
+    # a zero nonce gives identity commitments, which encode but do not decode
+    c0 = S.nonce_commitment((1, 0, 5))
+    T.check(cat, S.G_eq(c0[1], S.G_identity()) and S.dec_commitment(S.enc_commitment(c0)) is None,
+            "identity commitment does not round trip")
+    T.check(cat, S.dec_commitment(one + G + P5) is not None and S.dec_commitment(zero + G + P5) is None
+            and S.dec_commitment(one + ident_enc + P5) is None
+            and S.dec_commitment(one + G + ident_enc) is None
+            and S.dec_commitment(one + G + P5 + b"\x00") is None, "commitment rejects")
+    two = S.enc_scalar(2)
+    T.check(cat, S.dec_commitment_list(one + G + P5 + two + P5 + G) is not None
+            and S.dec_commitment_list(two + G + P5 + one + P5 + G) is None
+            and S.dec_commitment_list(one + G + P5 + zero + P5 + G) is None
+            and S.dec_commitment_list(one + G + P5 + two + ident_enc + G) is None, "commitment list")
+    # identifiers are compared as integers, whatever the byte order
+    big = S.enc_scalar(256)
+    T.check(cat, S.dec_commitment_list(two + G + P5 + big + P5 + G) is not None
+            and S.dec_commitment_list(big + G + P5 + two + P5 + G) is None, "identifier ordering")
+    T.check(cat, S.dec_sig_share(one + zero) == (1, 0) and S.dec_sig_share(zero + one) is None
+            and S.dec_sig_share(one + q.to_bytes(NS, endian)) is None
+            and S.dec_sig_share(one) is None, "sig share")
+    T.check(cat, S.dec_signature(G + zero) is not None and S.dec_signature(ident_enc + one) is None
+            and S.dec_signature(G + q.to_bytes(NS, endian)) is None
+            and S.dec_signature(G + one + b"\x00") is None and S.dec_signature(b"") is None,
+            "signature")
+    T.check(cat, S.dec_vss_list(G + P5) is not None and S.dec_vss_list(G) is None
+            and S.dec_vss_list(G + ident_enc) is None and S.dec_vss_list(G + P5 + b"\x00") is None,
+            "vss list")
+
+    # a signature with R = identity is valid for `verify` on objects (sk = 0
+    # is impossible, but z = c*sk with k = 0): it verifies as an object yet
+    # cannot be transported (dec_signature rejects the identity)
+    sk = 12345
+    pk = S.G_mulgen(sk)
+    Rn = S.G_identity()
+    c = S.challenge(Rn, S.enc_point(pk), b"m")
+    T.check(cat, S.verify(pk, Rn, c * sk % q, b"m")
+            and not S.verify_esig(pk, S.enc_signature((Rn, c * sk % q)), b"m"),
+            "identity R: verify() accepts, verify_esig() rejects")
+    # lagrange preconditions
+    _expect_panic(T, cat, lambda: S.lagrange(0, [0, 1]), "lagrange x = 0")
+    _expect_panic(T, cat, lambda: S.lagrange(2, [1, 3]), "lagrange x not in L")
+    _expect_panic(T, cat, lambda: S.lagrange(1, [3, 1]), "lagrange unsorted")
+    _expect_panic(T, cat, lambda: S.lagrange(1, [1, 1]), "lagrange duplicate")
+    _expect_panic(T, cat, lambda: S.lagrange(1, []), "lagrange empty")
+    T.check(cat, S.lagrange(1, [1]) == 1, "lagrange singleton")
+    T.check(cat, S.lagrange(1, [1, 2, 3]) == 3 and S.lagrange(2, [1, 2, 3]) == q - 3
+            and S.lagrange(3, [1, 2, 3]) == 1, "lagrange {1,2,3}")
+    _expect_panic(T, cat, lambda: S.vss_verify(d, []), "verify_split empty vss")
+    _expect_panic(T, cat, lambda: S.derive_group_info(3, [pk]), "derive_group_info 1 element")
+    _expect_panic(T, cat, lambda: S.derive_group_info(1, [pk, pk]), "derive_group_info n < t")
+
+
+def _st_cofactor(T):
+    """ed25519 / ed448: GroupPublicKey::verify uses the cofactored equation;
+    with object-level inputs outside the prime-order subgroup (which no
+    decoder lets through) it accepts where the strict equation fails."""
+    cat = "cofactor"
+    for name in ("ed25519", "ed448"):
+        S = SUITES[name]
+        C = S.grp.C
+        q = S.order
+        sk = 424242
+        pk = S.G_mulgen(sk)
+        msg = b"cofactor"
+        Tt = C.low_order_points()[1]                 # generator of E[h]
+        k = 999
+        Rt = C.add(S.G_mulgen(k), Tt)                # R with a torsion component
+        c = S.challenge(Rt, S.enc_point(pk), msg)
+        z = (k + c * sk) % q
+        T.check(cat, S.verify(pk, Rt, z, msg), name + " cofactored accept")
+        T.check(cat, not C.eq(S.G_mulgen(z), C.add(Rt, S.G_mul(c, pk))),
+                name + " strict equation fails")
+        T.check(cat, S.dec_signature(S.enc_signature((Rt, z))) is None
+                and not S.verify_esig(pk, S.enc_signature((Rt, z)), msg),
+                name + " but such R cannot be decoded")
+    # ristretto255: equation is exact on group elements, any representative
+    S = SUITES["ristretto255"]
+    sk, k, msg = 5151, 77, b"r"
+    pk = S.G_mulgen(sk)
+    T4 = [Q for Q in ED25519.low_order_points() if ED25519.is_neutral(ED25519.mul(4, Q))]
+    for Q in T4:
+        Rr = ED25519.add(S.G_mulgen(k), Q)
+        c = S.challenge(Rr, S.enc_point(pk), msg)
+        T.check(cat, S.verify(pk, Rr, (k + c * sk) % S.order, msg), "ristretto representative")
+        T.check(cat, not S.verify(pk, Rr, (k + c * sk + 1) % S.order, msg), "ristretto wrong z")
+
+
+def selftest(quick=False, verbose=True):
+    T = _Tally()
+    _st_hash(T)
+    _st_rng(T)
+    for S in SUITES.values():
+        _st_kat(T, S)
+    _st_interop(T)
+    _st_cofactor(T)
+    for S in SUITES.values():
+        _st_decode_rules(T, S)
+    for S in SUITES.values():
+        for max_signers in range(2, 6):
+            for min_signers in range(2, max_signers + 1):
+                if quick and (min_signers, max_signers) not in ((2, 2), (3, 5)):
+                    continue
+                _st_crrl_self_ops(T, S, min_signers, max_signers)
+    for S in SUITES.values():
+        for t in range(2, 5):
+            for n in range(t, 7):
+                for seed in range(1 if quick else 2):
+                    _st_e2e(T, S, t, n, seed)
+    if verbose:
+        for cat in sorted(T.n):
+            print("%-28s %6d checks  %s" % (cat, T.n[cat],
+                                             "ok" if cat not in T.bad else
+                                             "%d FAILED" % T.bad[cat]))
+        for m in T.msgs:
+            print("FAIL", m)
+        print("TOTAL %d checks, %d failed" % (sum(T.n.values()), sum(T.bad.values())))
+    return T.ok()
+
+
+if __name__ == "__main__":
+    sys.exit(0 if selftest(quick="--quick" in sys.argv) else 1)
